@@ -4,3 +4,17 @@ chk("C19", "exploration", "runtime monitor: independent sfnt reader + canary-gua
     "WriteTTF is driven with exhaustively enumerated small table lists (every length residue, every spare capacity), random lists up to 40 tables / 4096 bytes and every corpus font's own tables; each output is judged by an independent directory reader (header arithmetic, order, offsets, lengths, checksums, bodies), re-read through opentype.NewLoader, and the caller's backing arrays are compared byte for byte against canaries. Held on what was observed, not a proof.",
     "trusted: the 40-line reference reader in harness/internal/props/c19; input precondition (distinct tags, ascending) as documented",
     "DESIGN.md §6 C19")
+
+_WRAP_NOTE = "trusted: segmenter.Segmenter as the source of break opportunities (C06 checks it); generated inputs satisfy C01's laws by construction; oracle code in harness/internal/props/wrap/oracle.go; wrapper mutations of the caller's runs are recorded, not judged"
+chk("C02", "exploration", "runtime monitor: conservation oracle (rune chain, glyph identity, advance sum, logical-step termination clock) over exhaustive small scopes + random + real shaped paragraphs",
+    "The real LineWrapper (WrapParagraph and Prepare/WrapNextLine, slice iterator and a counting iterator that is the logical clock) is driven over every text of length<=3 (4 in thorough) x cluster partitions x run splits x directions x widths x policies x truncation, ~300k (6M) random paragraphs and 6k (200k) real multi-script paragraphs; each returned line set is checked for contiguous rune coverage, exact glyph conservation against a deep copy of the input (only the two documented edits allowed), Advance == sum, non-empty lines, and termination by step count. Held on what was observed.",
+    _WRAP_NOTE, "DESIGN.md §6 C02")
+chk("C03", "exploration", "runtime monitor: membership of every line end in the permitted-break sets (UAX#14/UAX#29 from the segmenter, cluster starts from the input), mandatory-break and WhenNecessary laws, on the C02 workload",
+    "Same executions as C02; every line end is checked against the sets computed independently from the paragraph (line-break opportunities, mandatory breaks, grapheme boundaries, cluster starts), per break policy, plus the mandatory-break law and the WhenNecessary word-split law with a reference width measure.",
+    _WRAP_NOTE, "DESIGN.md §6 C03")
+chk("C04", "exploration", "runtime monitor: reference width measure (all readings of the trailing-space/letter-spacing discount), width bound with single-unit exemption, greedy-fill law, truncation contract, exhaustive width sweep",
+    "Same executions as C02; a line is reported over-wide only if it exceeds the limit under the most lenient reading of the statement's measure and holds more than one unbreakable unit; not greedy only if the extension to the next permitted break fits under the strictest reading; truncation contract (line count, truncator presence iff cut or TextContinues, reported range, reduced width) checked with a marker-recognised truncator. Width laws are judged for horizontal text with non-negative advances.",
+    _WRAP_NOTE, "DESIGN.md §6 C04")
+chk("C08", "exploration", "runtime monitor: rule L2 reference on generator-known embedding levels (exhaustive level sequences), permutation law, trimming-target law; known finding with predicted-behaviour model",
+    "Same executions as C02 plus exhaustive level sequences; VisualIndex must be a permutation and equal rule L2 on the true levels; inside the known class (a run at level >= base+2) the output must equal the predicted parity-reduced order, anything else is a violation; the zeroed whitespace glyph must be the visually last content glyph in paragraph direction.",
+    _WRAP_NOTE + "; real paragraphs carry levels derived from run directions only", "DESIGN.md §6 C08")
